@@ -730,6 +730,29 @@ protected:
                             m_version,
                             getMemoryManager());
                 }
+                else if (XalanUnicode::charCR == theChar ||
+                         (XMLVersion == XML_VERSION_1_1 &&
+                          (XalanUnicode::charNEL == theChar ||
+                           XalanUnicode::charLSEP == theChar)))
+                {
+                    // A parser turns these characters into a line feed
+                    // wherever they appear literally, so they have to be
+                    // written as character references, which are not
+                    // recognized inside a CDATA section.  Leave the
+                    // section, as is done for characters the encoding
+                    // cannot represent.  The writer opens a new section
+                    // when the next ordinary character is written.
+                    if (outsideCDATA == false)
+                    {
+                        m_writer.write(
+                            m_constants.s_cdataCloseString,
+                            m_constants.s_cdataCloseStringLength);
+
+                        outsideCDATA = true;
+                    }
+
+                    writeNumericCharacterReference(theChar);
+                }
                 else
                 {
                     i = m_writer.writeCDATAChar(chars, i, length, outsideCDATA);
